@@ -190,7 +190,10 @@ class MatEval:
                     env[norm(tt)] = Val("other", norm(tt))
                 continue
             if isinstance(st, ast.If):
-                arms = self._arms(st.test)
+                test = st.test
+                if isinstance(test, ast.Name) and isinstance(env.get(test.id), tuple) and env[test.id][0] == "lazy":
+                    test = env[test.id][1]  # a named condition
+                arms = self._arms(test)
                 done_all = True
                 for asm, arm in ((arms[0], st.body), (arms[1], st.orelse)):
                     if asm is False:
